@@ -164,6 +164,8 @@ def run_batch(engine, task_fn, tasks, workers=16, cfg=None, progress=None):
     open_fds = {r: k for k, (_, r, _) in enumerate(procs)}
     done_workers = set()
     n_done = 0
+    n_harness = 0
+    harness_limit = cfg.get("harness_limit", max(24, len(tasks) // 100))
     while open_fds:
         ready, _, _ = select.select(list(open_fds), [], [], 5.0)
         for fd in ready:
@@ -189,8 +191,29 @@ def run_batch(engine, task_fn, tasks, workers=16, cfg=None, progress=None):
                 else:
                     results[i] = res
                     n_done += 1
+                    n_harness += res[0] == "harness"
                     if progress is not None:
                         progress(n_done, len(tasks), res)
+        if n_harness > harness_limit:
+            # the machinery is failing systematically (e.g. threads stuck on a lock the simulator does not own):
+            # stop burning wall-clock, report a harness error
+            for pid, fd, _ in procs:
+                try:
+                    os.kill(pid, signal.SIGKILL)
+                except ProcessLookupError:
+                    pass
+            for fd in list(open_fds):
+                os.close(fd)
+            open_fds.clear()
+            for pid, _, _ in procs:
+                try:
+                    os.waitpid(pid, 0)
+                except ChildProcessError:
+                    pass
+            for i, res in enumerate(results):
+                if res is None:
+                    results[i] = ("harness", f"batch aborted after {n_harness} harness errors")
+            return results, stats
     if len(done_workers) != workers:
         lost = sorted(set(range(workers)) - done_workers)
         for i, res in enumerate(results):
